@@ -238,7 +238,7 @@ def plan(tier, seed):
             for i in range(per):
                 cases.append({'cls': cls, 'field': fam, 'seed': [seed, 11, ci, fi, i], 'nmax': 5 if NDIM[cls] < 3 else 4})
             for i in range(per // 3):      # tiny / huge length units and almost-uniform spacing
-                cases.append({'cls': cls, 'field': fam, 'seed': [seed, 11, ci, fi, 10000 + i], 'nmax': 5 if NDIM[cls] < 3 else 4, 'geo': ['nano', 'jitter', 'mega'][i % 3]})
+                cases.append({'cls': cls, 'field': fam, 'seed': [seed, 11, ci, fi, 10000 + i], 'nmax': 5 if NDIM[cls] < 3 else 4, 'geo': ['nano', 'jitter', 'mega', 'int'][i % 4]})
         if NDIM[cls] > 1:
             for i in range(per * 2):
                 cases.append({'kind': 'embed', 'cls': cls, 'seed': [seed, 11, ci, 99, i]})
@@ -256,7 +256,7 @@ def floors(agg, tier):
             out.append('cases:%s < %d' % (cls, need))
         if NDIM[cls] > 1 and agg['cov'].get('embed:' + cls, 0) < 10:
             out.append('embed:%s < 10' % cls)
-    for geo in ('nano', 'jitter', 'mega'):
+    for geo in ('nano', 'jitter', 'mega', 'int'):
         if agg['cov'].get('geo:' + geo, 0) < 50:
             out.append('geo:%s < 50' % geo)
     for name in ('linear', 'arith', 'geo', 'harm', 'upwind'):
